@@ -194,6 +194,50 @@ def encode(job):
     return res
 
 
+def interpreter_validation(rules, sd, per_rule=4):
+    """Translator validation (Serval style): the interpreter is deterministic on concrete inputs, so random concrete child
+    sequences are executed by it and by the real interpreter; outcome class and number of collected errors must agree."""
+    from metapype.eml import rule as R
+    from metapype.model.node import Node
+    from vlib.pybmc import Interp, GuardedLog
+    rnd = random.Random(sd + 17)
+    n = 0
+    bad = []
+    for rn in rules:
+        alpha = list(dict.fromkeys(M.symbols(R.rules_dict[rn][1]))) + ["zzForeign"]
+        for _ in range(per_rule):
+            seq = [rnd.choice(alpha) for _ in range(rnd.randint(0, 7))]
+            for coll in (False, True):
+                n += 1
+                native, codes = _native_outcome(rn, seq, coll)
+                it = Interp(bv=BV, logic="QF_BV")
+                Node.store.clear()
+                el = emlctx.element_for_rule(rn) or "x"
+                parent = Node(el, id="p", content=emlctx.valid_content(rn))
+                for k, v in emlctx.valid_attributes(rn).items():
+                    parent.add_attribute(k, v)
+                for i, nm in enumerate(seq):
+                    parent.add_child(Node(nm, id="c%d" % i))
+                errs = GuardedLog(it) if coll else None
+                try:
+                    it.call(R.Rule(rn).validate_rule, [parent, errs], {})
+                except Exception as e:
+                    bad.append("%s %r: interpreter raised %s" % (rn, seq, e))
+                    continue
+                if it.sinks[0]:
+                    mine = "exception" if coll else ("reject" if type(it.sinks[0][0][1]).__name__ in (
+                        "ChildNotAllowedError", "MinOccurrenceUnmetError", "MaxOccurrenceExceededError") else "exception")
+                elif coll and errs.entries:
+                    mine = "reject"
+                else:
+                    mine = "accept"
+                nat = "exception" if native.startswith("exception") else native
+                if mine != nat or (coll and nat == "reject" and len(errs.entries) != len(codes)):
+                    bad.append("%s %r (%s): interpreter %s/%d, native %s/%d" % (rn, seq, "collecting" if coll else "fail-fast", mine,
+                                                                                  len(errs.entries) if coll else 0, nat, len(codes)))
+    return n, bad
+
+
 def access_words(rule_name):
     """Shortest access word of every live state of the rule's reference (lo) automaton."""
     from metapype.eml import rule as R
@@ -315,6 +359,10 @@ def run(tier, only=None):
                         "accepted_example": tw.get("reach_accept_model"), "rejected_example": tw.get("reach_reject_model"),
                         "dfa_states_lo_hi": r["dfa_states"], "stmts": r["stats"].get("stmts"),
                         "solver_checks": r["stats"].get("sat_checks")}, cap=8)
+    nval, vbad = interpreter_validation(rules, sd)
+    rep.extra["interpreter_validation"] = {"concrete_runs_compared": nval, "disagreements": vbad[:10]}
+    for b_ in vbad[:10]:
+        rep.mismatch.append("interpreter validation: " + b_)
     never = [rn for rn in rules if not per_rule_accept.get(rn)]
     rep.extra["rules_never_accepted_within_bound"] = never
     rep.extra["traces_validated_against_impl"] = validated
